@@ -200,6 +200,10 @@ def configs(tier):
     add(modes=("level", "rise"), dw=1, attach="direct", elab_twice=True)
     add(modes=("fall",), dw=2, attach="connect", elab_twice=True)
     add(modes=("level", "level"), dw=1, attach="direct", align=2)
+    # large event counts (existence and map shape only): word counts that are not powers of two, with alignment
+    for n, dw, align in ((5, 1, 1), (5, 2, 0), (7, 1, 2), (9, 8, 0), (12, 8, 1), (17, 8, 1), (20, 8, 1), (24, 8, 2), (33, 8, 1), (40, 16, 1),
+                         (65, 32, 1), (64, 8, 0), (70, 8, 3)):
+        add(modes=("level", "rise", "fall") * (n // 3) + ("level",) * (n % 3), dw=dw, attach="direct", align=align, static=True)
     if not quick:
         # three events: unaligned 3-chunk registers on a 1-bit bus (pending at 3..6), 2-bit bus
         for modes in (("level", "rise", "fall"), ("rise", "rise", "level"), ("fall", "level", "level"), ("rise", "level", "rise"),
@@ -219,11 +223,43 @@ def configs(tier):
     return out
 
 
+def static_check(cfg):
+    """Large event counts: the monitor must exist (construct and elaborate) for any number of events, bus width
+    and alignment, and its map must hold two mask registers of the right size that do not overlap; no exploration."""
+    from ..common import is_refusal, describe_exc
+    from ..netlist import compile_harness
+
+    def viol(msg, what):
+        return dict(states=0, transitions=0, violation=dict(kind="static", err=dict(msg=msg, signature=dict(kind="oracle", what=what)),
+                                                            trace=[], signature=dict(kind="oracle", what=what)))
+    try:
+        h = build(cfg)
+        compile_harness(h, only=["irq"])
+    except Exception as e:
+        d = describe_exc(e)
+        return viol(f"an event monitor for {len(cfg['modes'])} events, data width {cfg['dw']}, alignment {cfg.get('align', 0)} cannot be "
+                    f"built: {d['type']}: {d['message'][:160]}", "refused_in_domain" if is_refusal(e) else "internal_error")
+    n, dw = len(cfg["modes"]), cfg["dw"]
+    regs = h.meta["regs"]
+    need = max(1, -(-n // dw))
+    if set(regs) != {"enable", "pending"} or any(r["width"] != n or r["end"] - r["start"] < need for r in regs.values()):
+        return viol(f"memory map reports {regs} for {n} events on a {dw}-bit bus", "map")
+    a, b = sorted((r["start"], r["end"]) for r in regs.values())
+    if a[1] > b[0] or b[1] > (1 << h.meta["aw"]):
+        return viol(f"mask registers overlap or leave the address space: {regs}", "map")
+    return dict(states=1, transitions=0, max_depth=0, capped=None, outcomes=1)
+
+
 def run_config(cfg, tier, seed):
+    if cfg.get("static"):
+        return static_check(cfg)
     return explore_hw(build, Observer, cfg, tier, seed, max_states=6_000_000, max_seconds=6000)
 
 
 def replay(data):
+    if data["cfg"].get("static"):
+        v = static_check(data["cfg"]).get("violation")
+        return (v["err"], 0) if v else (None, None)
     return rederive(build, Observer, data["cfg"], data["trace"], None)
 
 
